@@ -1,6 +1,6 @@
 /* harnesses for buffer.c -- included at the end of the injected TU */
 #include "vg.h"
-size_t vg_o, vg_len0, vg_cur0, vg_end0;
+size_t vg_o, vg_k, vg_len0, vg_cur0, vg_end0, vg_alloc0;
 uint8_t vg_byte0;
 
 /* an arbitrary well-formed buffer, built explicitly (cursor anywhere, end anywhere behind it) */
@@ -29,4 +29,83 @@ void h_buf_realloc(void) {
     VG_REACH(realloc_returns);
     if (rc == 0 && size > 4 * vg_len0 && size > (1u << 21)) { VG_REACH(realloc_grew); }
     if (rc != 0) { VG_REACH(realloc_failed); }
+}
+
+void h_buf_wr_u8(void) {
+    struct jls_buf_s * b = vg_mk_buf(1);
+    uint8_t v;
+    int32_t rc = jls_buf_wr_u8(b, v);
+    VG_REACH(wr_u8_returns);
+    if (rc == 0) { VG_REACH(wr_u8_ok); } else { VG_REACH(wr_u8_fail); }
+}
+
+void h_buf_wr_u16(void) {
+    struct jls_buf_s * b = vg_mk_buf(1);
+    uint16_t v;
+    int32_t rc = jls_buf_wr_u16(b, v);
+    VG_REACH(wr_u16_returns);
+    if (rc == 0) { VG_REACH(wr_u16_ok); } else { VG_REACH(wr_u16_fail); }
+}
+
+void h_buf_wr_u32(void) {
+    struct jls_buf_s * b = vg_mk_buf(1);
+    uint32_t v;
+    int32_t rc = jls_buf_wr_u32(b, v);
+    VG_REACH(wr_u32_returns);
+    if (rc == 0) { VG_REACH(wr_u32_ok); } else { VG_REACH(wr_u32_fail); }
+}
+
+void h_buf_wr_i64(void) {
+    struct jls_buf_s * b = vg_mk_buf(1);
+    int64_t v;
+    int32_t rc = jls_buf_wr_i64(b, v);
+    VG_REACH(wr_i64_returns);
+    if (rc == 0) { VG_REACH(wr_i64_ok); } else { VG_REACH(wr_i64_fail); }
+}
+
+void h_buf_wr_f32(void) {
+    struct jls_buf_s * b = vg_mk_buf(1);
+    float v;
+    int32_t rc = jls_buf_wr_f32(b, v);
+    VG_REACH(wr_f32_returns);
+    if (rc == 0) { VG_REACH(wr_f32_ok); } else { VG_REACH(wr_f32_fail); }
+}
+
+void h_buf_wr_zero(void) {
+    struct jls_buf_s * b = vg_mk_buf(1);
+    uint32_t count;
+    int32_t rc = jls_buf_wr_zero(b, count);
+    VG_REACH(wr_zero_returns);
+    if (rc == 0 && count > 100) { VG_REACH(wr_zero_ok); }
+}
+void h_buf_rd_skip(void) {
+    struct jls_buf_s * b = vg_mk_buf(0);
+    size_t count;
+    int32_t rc = jls_buf_rd_skip(b, count);
+    VG_REACH(rd_skip_returns);
+    if (rc == 0 && count > 3) { VG_REACH(rd_skip_ok); } else if (rc) { VG_REACH(rd_skip_empty); }
+}
+
+void h_buf_rd_u8(void) {
+    struct jls_buf_s * b = vg_mk_buf(0);
+    uint8_t * v;
+    int32_t rc = jls_buf_rd_u8(b, v);
+    VG_REACH(rd_u8_returns);
+    if (rc == 0) { VG_REACH(rd_u8_ok); } else { VG_REACH(rd_u8_empty); }
+}
+
+void h_buf_rd_u16(void) {
+    struct jls_buf_s * b = vg_mk_buf(0);
+    uint16_t * v;
+    int32_t rc = jls_buf_rd_u16(b, v);
+    VG_REACH(rd_u16_returns);
+    if (rc == 0) { VG_REACH(rd_u16_ok); } else { VG_REACH(rd_u16_empty); }
+}
+
+void h_buf_rd_u32(void) {
+    struct jls_buf_s * b = vg_mk_buf(0);
+    uint32_t * v;
+    int32_t rc = jls_buf_rd_u32(b, v);
+    VG_REACH(rd_u32_returns);
+    if (rc == 0) { VG_REACH(rd_u32_ok); } else { VG_REACH(rd_u32_empty); }
 }
